@@ -25,7 +25,41 @@ type FuncResult struct {
 	Ex        *Exec
 }
 
+// VerifyFunc generates the obligations of fn. With "model split" the function is executed twice:
+// once with real (nonlinear) products, keeping only the call-site coefficient obligations
+// ("site.*", genuine real algebra), and once with uninterpreted products, where those coefficient
+// facts are assumed and everything else (postcondition, frame, preconditions of callees, safety)
+// is pure congruence reasoning.
 func (V *Verifier) VerifyFunc(fn *ssa.Function, con *Contract) (res *FuncResult) {
+	if con.Model == "split" {
+		c1 := *con
+		c1.Model = ""
+		r1 := V.verifyFunc1(fn, &c1)
+		c2 := *con
+		c2.Model = "acmul"
+		r2 := V.verifyFunc1(fn, &c2)
+		var obls []*Obligation
+		for _, o := range r1.Obls {
+			if o.Kind == "site" {
+				obls = append(obls, o)
+			}
+		}
+		for _, o := range r2.Obls {
+			if o.Kind != "site" {
+				obls = append(obls, o)
+			}
+		}
+		r2.Obls = obls
+		if r2.Err == "" {
+			r2.Err = r1.Err
+		}
+		r2.Contract = con
+		return r2
+	}
+	return V.verifyFunc1(fn, con)
+}
+
+func (V *Verifier) verifyFunc1(fn *ssa.Function, con *Contract) (res *FuncResult) {
 	name := V.qualFuncName(fn)
 	res = &FuncResult{Name: name, Func: fn, Contract: con}
 	ex := &Exec{V: V, fn: fn, con: con, name: name, initHeap: map[string]*Term{}, closures: map[*Term]*Closure{}, counters: map[string]int{},
